@@ -16,4 +16,5 @@ Extraction "model_c13.ml"
   IterSpec.size height pre pree level_order
   num_nodes depth_of terminal_depths node_indices terminal_indices decision_indices num_terminals
   sample_mean sample_var list_min list_max_opt path_to_node
-  leafdepths nleaves indices path_find qabs.
+  leafdepths nleaves indices path_find qabs
+  minvb leaf_indices inner_indices idxs depth_stats depth_stats_direct stats_of.
